@@ -207,7 +207,13 @@ def judge (_id : String) (lines : Array String) : Verdict := Id.run do
   -- ONLY (the property on the observed outcome); there is no model prediction for them
   if chainT.contains ';' then
     match obs with
-    | ["panic"] => return .specfail "no-crash" "the real code panicked (the harness child process died) on a fork topology"
+    | ["panic"] =>
+      -- a failing UDF node with a node below it, in some branch: the recorded finding
+      let failAbove := (chainT.splitOn ";").any (fun br =>
+        let ts := br.splitOn ","
+        (ts.zipIdx.any (fun p => p.1.startsWith "fail:" && p.2 + 1 < ts.length)))
+      if failAbove then return .known "failed-udf-forwarder-not-joined" "the real code panicked on a fork topology (forwarding goroutine of a UDF node whose process died)"
+      return .specfail "no-crash" "the real code panicked (the harness child process died) on a fork topology"
     | [accT, stopres, censusT, outsT, _lateT, nodeErrT] =>
       let some acc := accT.toNat? | return .badop l
       let some census := censusT.toNat? | return .badop l
